@@ -7,7 +7,7 @@ RULE = ("trees: every tagged tree up to depth 2 over the 8 plain uGO kinds (u2g)
         "model and exports tree + expected image; the harness instantiates every tree with 3 boundary-value variants, every width-table kind with 2 to 9 (extremes of the width, zero, float32 values that are no short decimals, subnormals; extreme "
         "integers, NaN/-Inf, invalid UTF-8, nil vs empty containers) and compares ToInterface / ToObject / ToObjectAlt; "
         "histories: host / script write into earlier results, then a fresh equal value is converted; concurrency: 8 goroutines convert values of different registry-handled and plain types at once (race detector build), results must equal the sequential ones; "
-        "non-trivial = trees with a container or a width-table kind")
+        "non-trivial = trees with a container or a width-table kind; registry types (time, *time, duration, location, raw JSON) x 8 wrappers with their zero / nil / extreme values: image type and way back")
 
 def run(ctx):
     out = ctx.path("b.ndjson")
